@@ -1,113 +1,61 @@
 import Zog.Props.FactsOK
-import Zog.Mono
+import Zog.Valid
 
 /-!
 # C01 — success means valid: no issues implies every declared constraint holds
+`Spec.Valid` (Zog/Valid.lean) states, node by node and at every depth, what a successful execution
+must have established; it is written independently of the traversal's bookkeeping (flags, sink,
+visit order).
 -/
 
 namespace Zog.Props.C01
 open Zog Spec
 
-/-- what "valid" means at one primitive node once it has been visited: the documented exemptions
-    are an absent optional node (left untouched, not tested) and a node holding its catch value -/
-def PrimSat (m : Mode) (p : Prim) (v : Val) (d out : DVal) : Prop :=
-  (Engine.primAbsent m v d = true ∧ p.dflt = none ∧ p.required = none ∧ out = d)
-  ∨ p.ctch = some out
-  ∨ ((Engine.primAbsent m v d = true → p.dflt.isSome) ∧ p.tests.all (fun t => t.pred out) = true)
+/-- **C01 (reference semantics), every depth.** For every PostTransform-free schema whose struct
+    fields address distinct Go fields, every input, destination, mode and field visit order: if the
+    execution reports no issue, then at every node reached — through structs, slices and non-nil
+    pointers — every test declared on the node holds on the value placed or found in the
+    destination, every Required / NotNil node had a present value (or a default), and the only
+    exemptions are an absent optional node and a node holding its catch value. -/
+theorem success_means_valid_spec (env : Env) (m : Mode) (s : Schema) (hp : s.postFree = true) (hw : s.WF)
+    (tag : Option String) (v : Val) (d : DVal) (h : (Spec.run env m s tag v d).2.sink = []) :
+    Valid env m s tag [] v d :=
+  valid_of_clean env m s hp hw tag [] v d h
 
-theorem failing_nil_all {tests : List Test} {x : DVal} (h : failing tests x = []) :
-    tests.all (fun t => t.pred x) = true := by
-  unfold failing at h
-  rw [List.filter_eq_nil_iff] at h
-  rw [List.all_eq_true]
-  intro t ht
-  have := h t ht
-  simpa using this
+/-- **C01 (mechanism model, current code facts).** The same for the engine with `CanCatch`/`Exit` on
+    the shared child context: no constraint is skipped because of what happened at a sibling field
+    or an earlier slice element, whatever the visit order. -/
+theorem success_means_valid (env : Env) (m : Mode) (s : Schema) (hp : s.postFree = true) (hw : s.WF)
+    (tag : Option String) (v : Val) (d : DVal) (h : (Engine.run env Gen.facts m s tag v d).2.sink = []) :
+    Valid env m s tag [] v d := by
+  rw [engine_is_spec] at h
+  exact success_means_valid_spec env m s hp hw tag v d h
 
-theorem tested_sat (env : Env) (dt ps : String) (ctch : Option DVal) (tests : List Test) (x : DVal) (st : St)
-    (h : (tested env dt ps ctch tests x st).2.sink = st.sink) :
-    ctch = some (tested env dt ps ctch tests x st).1 ∨
-      tests.all (fun t => t.pred (tested env dt ps ctch tests x st).1) = true := by
-  unfold tested at *
-  cases ctch with
-  | some c =>
-    simp only [testCatch_dest]
-    by_cases ha : tests.all (fun t => t.pred x) = true
-    · right; simp [ha]
-    · left; simp [ha]
-  | none =>
-    right
-    simp only at h ⊢
-    rw [testAll_sink] at h
-    have : (failing tests x).map (issueOfTest env ps dt) = [] := by simpa using h
-    exact failing_nil_all (List.map_eq_nil_iff.mp this)
-
-/-- **Node law.** If visiting a primitive node added no issue, the node is valid: a Required node
-    had a present value (or a default), and every test declared on it holds on the value placed in
-    the destination — both modes, every input. No test is skipped. -/
+/-- **Node law (all schemas, also with PostTransforms).** If visiting a primitive node added no
+    issue, the node is valid: a Required node had a present value (or a default), and every test
+    declared on it holds on the value placed in the destination. No test is skipped. -/
 theorem prim_no_issue_sat (env : Env) (m : Mode) (p : Prim) (path : List String) (v : Val) (d : DVal) (st : St)
     (h : (primBody env m p path v d st).2.sink = st.sink) :
-    PrimSat m p v d (primBody env m p path v d st).1 := by
-  unfold primBody at *
-  unfold PrimSat
-  cases hab : Engine.primAbsent m v d
-  · simp only [hab, Bool.false_eq_true, ↓reduceIte] at h ⊢
-    cases m <;> simp only at h ⊢
-    · cases hco : p.coerce v with
-      | none =>
-        simp only [hco] at h ⊢
-        cases hc : p.ctch with
-        | some c => right; left; simp [hc]
-        | none => simp [hc, emit] at h
-      | some x =>
-        simp only [hco] at h ⊢
-        rcases tested_sat _ _ _ _ _ _ _ h with h1 | h1
-        · right; left; exact h1
-        · right; right; exact ⟨by simp, h1⟩
-    · rcases tested_sat _ _ _ _ _ _ _ h with h1 | h1
-      · right; left; exact h1
-      · right; right; exact ⟨by simp, h1⟩
-  · simp only [hab, ↓reduceIte] at h ⊢
-    cases hd : p.dflt with
-    | some x =>
-      simp only [hd] at h ⊢
-      rcases tested_sat _ _ _ _ _ _ _ h with h1 | h1
-      · right; left; exact h1
-      · right; right; exact ⟨by simp, h1⟩
-    | none =>
-      simp only [hd] at h ⊢
-      cases hr : p.required with
-      | none => left; simp [hr]
-      | some r =>
-        simp only [hr] at h ⊢
-        cases hc : p.ctch with
-        | some c => right; left; simp [hc]
-        | none => simp [hc, emit] at h
+    PrimSat m p v d (primBody env m p path v d st).1 :=
+  primBody_sat env m p path v d st h
 
 /-- struct- and slice-level tests: if none was reported, all of them hold on the node's value -/
 theorem complex_tests_hold (env : Env) (dt ps : String) (tests : List Test) (x : DVal) (st : St)
-    (h : (testAll env dt ps tests x st).sink = st.sink) : tests.all (fun t => t.pred x) = true := by
-  rw [testAll_sink] at h
-  have : (failing tests x).map (issueOfTest env ps dt) = [] := by simpa using h
-  exact failing_nil_all (List.map_eq_nil_iff.mp this)
+    (h : (testAll env dt ps tests x st).sink = st.sink) : tests.all (fun t => t.pred x) = true :=
+  testAll_clean_all env dt ps tests x st h
 
-/-- **No constraint is skipped because of a sibling, an earlier element or an earlier node.**
-    If a whole execution ends without issues then no visit at any depth added one: the state every
-    node started from and the state it left have the same (empty) sink — so each node's law above
-    applies to each visit. (Stated for the two loop shapes and lifted by `proc_extends`.) -/
+/-- with PostTransforms too: if a whole execution ends without issues then no visit at any depth
+    added one (issues are only ever appended) -/
 theorem success_means_every_visit_clean (env : Env) (m : Mode) (s : Schema) (tag : Option String)
     (path : List String) (v : Val) (d : DVal) (st mid : St)
     (h1 : Extends st mid) (h2 : Extends mid (proc env m s tag path v d mid).2)
     (h : (proc env m s tag path v d mid).2.sink = st.sink) : mid.sink = st.sink :=
   Extends.squeeze h1 h2 h
 
-/-- every node extends the sink it was given (for all schemas, modes, inputs, visit orders) -/
 theorem visits_only_append (env : Env) (m : Mode) (s : Schema) (tag : Option String) (path : List String)
     (v : Val) (d : DVal) (st : St) : Extends st (proc env m s tag path v d st).2 :=
   proc_extends env m s tag path v d st
 
-/-- the mechanism model (flags on the shared child context, current code facts) succeeds exactly
-    when the reference semantics does, with the same destination — for every field visit order -/
 theorem engine_success_iff (env : Env) (m : Mode) (s : Schema) (tag : Option String) (v : Val) (d : DVal) :
     (Engine.run env Gen.facts m s tag v d).2.sink = [] ↔ (Spec.run env m s tag v d).2.sink = [] := by
   rw [engine_is_spec]
@@ -115,5 +63,20 @@ theorem engine_success_iff (env : Env) (m : Mode) (s : Schema) (tag : Option Str
 /-! ### non-vacuity -/
 example : PrimSat .parse { kind := .num .int, coerce := fun _ => none } .nil (.int .int 0) (.int .int 0) :=
   Or.inl ⟨rfl, rfl, rfl, rfl⟩
+
+/-- a concrete successful execution meeting every hypothesis of `success_means_valid_spec` -/
+def intCoerce (v : Val) : Option DVal :=
+  match v with
+  | .int _ n => some (.int .int n)
+  | _ => none
+def gt5 (d : DVal) : Bool :=
+  match d with
+  | .int _ n => decide (n > 5)
+  | _ => false
+def okField : Prim := { kind := .num .int, coerce := intCoerce, tests := [{ id := 1, code := "gt", pred := gt5 }] }
+def okSchema : Schema := .struct (.cons "n" ⟨"N", []⟩ (.prim okField) .nil) [] []
+def okEnv : Env := { fmt := fun _ _ _ => "m", ω := fun _ => [] }
+example : (Spec.run okEnv .parse okSchema none (.obj [("n", .int .int 7)]) (.struct [("N", .int .int 0)])).2.sink = [] := by decide
+example : okSchema.postFree = true := by decide
 
 end Zog.Props.C01
